@@ -317,6 +317,17 @@ class Impl(object):
                 return [m["nb_nodes"], m["nb_pages"], m["nb_crawled_pages"], m["nb_tail_nodes"],
                         m["nb_fragmented_nodes"], m["nb_stems"], m["max_tail"], int(nl * 2)]
             return self.call(go)
+        if op == 48:
+            def go():
+                m = t.metrics()
+                lk, b = m["links"], m["bst"]
+                ref = t.lru_trie.metrics()
+                if any(m["lru_trie"][k] != ref[k] for k in ("nb_nodes", "nb_pages", "nb_crawled_pages", "nb_tail_nodes")):
+                    return Crash("metrics()['lru_trie'] differs from lru_trie.metrics()")
+                nb = b["nb_bst"]
+                return [lk["max_inlinks_len"], lk["max_inlinks_lru"] or b"", lk["max_outlinks_len"], lk["max_outlinks_lru"] or b"",
+                        nb, b["max_bst_height"], b["max_bst_size"], int(round(b["avg_bst_height"] * nb)), int(round(b["avg_bst_size"] * nb))]
+            return self.call(go)
         if op == 46:
             return self.call(lambda: [t.get_page_indegree(a[0]), t.get_page_outdegree(a[0]), t.get_page_degree(a[0]),
                                       t.get_page_indegree(a[0], weighted=True), t.get_page_outdegree(a[0], weighted=True),
